@@ -494,7 +494,7 @@ func (c *Ctx) SessionLifecycle(prop string) {
 			listFld := sessionParticipantsField(p.Session)
 			for _, mf := range mapFlds {
 				mf := mf
-				complete := func(a *an.Atom) bool {
+				complete := func(a *an.Atom, sub Subst) bool {
 					if a == nil || a.Op != "==" {
 						return false
 					}
@@ -504,7 +504,7 @@ func (c *Ctx) SessionLifecycle(prop string) {
 							return false
 						}
 						_, ff, base := an.FieldOf(call.Call.Args[0])
-						return ff == f && base == gen
+						return ff == f && sub.Res(base) == gen
 					}
 					return (isLenOf(a.LV, mf) && isLenOf(a.RV, listFld)) || (isLenOf(a.RV, mf) && isLenOf(a.LV, listFld))
 				}
@@ -515,7 +515,7 @@ func (c *Ctx) SessionLifecycle(prop string) {
 					}
 					target := ssa.Instruction(ret)
 					if x, path := an.Cut(an.CutQuery{From: an.Entry(F), Target: func(i ssa.Instruction) bool { return i == target },
-						AcceptEdge: func(b *ssa.BasicBlock, i int, a *an.Atom) bool { return complete(a) }}); x != nil {
+						AcceptEdge: c.WithSummaries(complete)}); x != nil {
 						badC = true
 						c.R.Fail(rule4, Fn(F)+":"+mf, c.Pos(ret), "commit can succeed without one "+mf+" entry per listed participant", "[len("+mf+") == len("+listFld+")] before success", an.PathString(c.Pos, path))
 					}
